@@ -2,7 +2,7 @@
  * errno), linked into the Kani run with `-Z c-ffi --c-lib`.  The real Rust code, including its FFI
  * calls through the libc crate, runs against this model.  ASSUMED contract on the OS (listed in the
  * evidence): one file of verif_file_len (0..96) bytes; it may be missing (open fails), be a directory
- * (read fails) or fail to map; a successful mmap yields one page of memory showing the file's (modelled) bytes followed by zeros.  Ghost counters record descriptor / mapping ownership. */
+ * (read fails) or fail to map; a successful mmap yields one page of memory showing the file's (modelled) bytes followed by zeros; the mapping of an EMPTY file has no accessible page (any access = SIGBUS, modelled as an out-of-bounds pointer).  Ghost counters record descriptor / mapping ownership. */
 #include <stddef.h>
 
 #define MODEL_MAX 96   /* maximum file length */
@@ -20,6 +20,7 @@ int verif_live_mappings = 0;
 unsigned long verif_mapped_len = 0;
 int verif_bad_arg = 0;
 unsigned char verif_page[4096];
+unsigned char verif_no_page[1];   /* mapping of an EMPTY file: every access faults (SIGBUS); modelled as out of bounds */
 
 int *__errno_location(void) { return &verif_errno; }
 
@@ -51,13 +52,14 @@ void *mmap(void *addr, unsigned long len, int prot, int flags, int fd, long off)
   if (verif_mmap_fails || len == 0) return (void *)(~0UL); /* MAP_FAILED; `(void *)-1` does not compare equal to Rust's !0 under CBMC */
   verif_live_mappings++;
   verif_mapped_len = len;
+  if (verif_file_len == 0) return (void *)(verif_no_page + 1);
   /* MAP_SHARED: the mapping shows the file's bytes (the modelled ones; the rest reads as 0) */
   for (unsigned long i = 0; i < MODEL_CONTENT; i++) verif_page[i] = i < verif_file_len ? verif_file[i] : 0;
   return (void *)verif_page;
 }
 
 int munmap(void *addr, unsigned long len) {
-  if (addr != (void *)verif_page || len != verif_mapped_len) verif_bad_arg = 1;
+  if ((addr != (void *)verif_page && addr != (void *)(verif_no_page + 1)) || len != verif_mapped_len) verif_bad_arg = 1;
   verif_live_mappings--;
   return 0;
 }
